@@ -95,12 +95,15 @@ def corrupt(rng, fr, region=None):
         if kind == "dup-stx":
             return STX * rng.choice([1, 1, 2]) + fr, 0, 2
         if kind == "insert":
+            # (a NUL byte inside the summed part would leave the checksum valid: that is not damage the checksum can see)
             pos = rng.randrange(1, body_end + 1)
-            new = rng.randrange(256)
+            new = rng.randrange(1, 256)
             return fr[:pos] + bytes([new]) + fr[pos:], pos, new
         if kind == "delete" and body_end > 4:
-            pos = rng.randrange(1, body_end)
-            return fr[:pos] + fr[pos + 1:], pos, -1
+            cand = [p_ for p_ in range(1, body_end) if fr[p_] != 0]
+            if cand:
+                pos = rng.choice(cand)
+                return fr[:pos] + fr[pos + 1:], pos, -1
         if kind == "truncate-short":
             k = rng.randrange(1, 5)
             return fr[:k] + rng.choice([b"", b"\r\n"]), k, -1
